@@ -66,12 +66,14 @@ class RingSystem:
             val = torch.empty(0, dtype=DT[self.storage.split(":")[1]])
         elif self.storage.startswith("uninitbuf:"):
             val = nn.UninitializedBuffer(dtype=DT[self.storage.split(":")[1]])
+        elif self.storage.startswith("zeros:"):  # initialised storage of its own dtype, fed observations of another (wider) dtype
+            val = torch.zeros(self.shape, dtype=DT[self.storage.split(":")[1]])
         else:
             raise ValueError(self.storage)
         # duration N-1 inclusive gives N slots at dt=1
         RecordTensor.create(st.mod, "rec", 1.0, float(N - 1), val, inclusive=True)
         st.rt = st.mod.rec
-        st.init = self.storage in ("zeros", "param")
+        st.init = self.storage in ("zeros", "param") or self.storage.startswith("zeros:")
         st.M = [[0] * self.E for _ in range(N)]
         st.p = 0
         st.step = 0
@@ -398,6 +400,8 @@ def configs(tier):
                     out.append((N, shape, "uninitbuf:float64", "float32", 200 if E > 1 else None, full))
     # non-square, multi-dimensional and singleton-dimension observations (also in the quick tier, reduced alphabet / state cap),
     # float64 and bool observations on them
+    # (an initialised float32 record fed float64 observations is NOT a configuration: the docstrings of write / writerange say that
+    # an out-of-place write "may cause the data type of the stored tensor to change", so no dtype can be demanded there)
     for N in (2, 3):
         for shape, od in (((2, 3), "float32"), ((1, 2), "float32"), ((2, 1), "bool"), ((2, 3), "float64")):
             if (N, shape, "zeros", od) not in [(c[0], c[1], c[2], c[3]) for c in out]:
